@@ -90,6 +90,44 @@ instance (pm : Pmtp) (o : Option Dec) : Decidable (powRateOK pm o) := by
 instance (pm : Pmtp) (env : BEnv) : Decidable (EnvOKP pm env) := by unfold EnvOKP; infer_instance
 instance (pools : List PoolDepth) : Decidable (PoolsOKP pools) := by unfold PoolsOKP; infer_instance
 
+/-! ### envelope of the state the clp EndBlocker reads (LPPD, depth rewards) -/
+
+def optLe (o : Option Nat) (b : Nat) : Prop := match o with | some a => a ≤ b | none => False
+def optDecIn (o : Option Dec) (lo hi : Int) : Prop := match o with | some d => lo ≤ d.i ∧ d.i ≤ hi | none => False
+def optDecInOrNone (o : Option Dec) (lo hi : Int) : Prop := match o with | some d => lo ≤ d.i ∧ d.i ≤ hi | none => True
+
+/-- what the (repaired: F5, F13, F18) validation of `AddRewardPeriod` guarantees of a stored period -/
+def RewOKP (p : RewardPeriod) : Prop :=
+  p.start ≤ p.end_ ∧ p.end_ < 2 ^ 64 ∧ ¬ (p.start = 0 ∧ p.end_ = 2 ^ 64 - 1) ∧ p.mod < 2 ^ 64 ∧
+  optLe p.alloc (2 ^ 128 - 1) ∧ optDecIn p.defMult 0 (10 * Dec.P) ∧
+  ∀ m ∈ p.mults, optDecInOrNone m.m 0 (10 * Dec.P)
+
+/-- what the validation of `AddProviderDistributionPeriod` guarantees -/
+def LppdOKP (p : LppdPeriod) : Prop :=
+  p.mod ≠ 0 ∧ p.mod < 2 ^ 64 ∧ 0 ≤ p.rate.i ∧ p.rate.i ≤ Dec.P
+
+/-- envelope of one pool (section 5; `lp ≤ pool units` and `providers ⇒ units > 0` are the C02 invariants) -/
+def EPoolOKP (q : EPool) : Prop :=
+  q.nb ≤ 2 ^ 200 ∧ q.rpnd ≤ 2 ^ 200 ∧ (q.lps ≠ [] → 1 ≤ q.units) ∧ ∀ u ∈ q.lps, u ≤ q.units
+
+def sumNb : List EPool → Nat
+  | [] => 0
+  | q :: qs => q.nb + sumNb qs
+
+/-- envelope of the EndBlocker's inputs: validated periods, accumulated block distribution below
+    2^254, pools inside the envelope, total native depth below 2^200 -/
+def EInvP (s : EState) : Prop :=
+  s.accu < 2 ^ 254 ∧ (∀ p ∈ s.lppd, LppdOKP p) ∧ (∀ p ∈ s.rew, RewOKP p) ∧ (∀ q ∈ s.pools, EPoolOKP q) ∧ sumNb s.pools ≤ 2 ^ 200
+
+instance (o : Option Nat) (b : Nat) : Decidable (optLe o b) := by cases o <;> unfold optLe <;> infer_instance
+instance (o : Option Dec) (lo hi : Int) : Decidable (optDecIn o lo hi) := by cases o <;> unfold optDecIn <;> infer_instance
+instance (o : Option Dec) (lo hi : Int) : Decidable (optDecInOrNone o lo hi) := by cases o <;> unfold optDecInOrNone <;> infer_instance
+instance (p : RewardPeriod) : Decidable (RewOKP p) := by unfold RewOKP; infer_instance
+instance (p : LppdPeriod) : Decidable (LppdOKP p) := by unfold LppdOKP; infer_instance
+instance (q : EPool) : Decidable (EPoolOKP q) := by unfold EPoolOKP; infer_instance
+instance (s : EState) : Decidable (EInvP s) := by unfold EInvP; infer_instance
+def EInv (s : EState) : Bool := decide (EInvP s)
+
 /-! ### histories of blocks -/
 
 /-- what permissionless traffic between two BeginBlockers can do to the state this hook reads: move
